@@ -146,7 +146,7 @@ def gen_args(rng, kname, pub, d):
 # kernels of this module that harness/translate_metrics.py translates (Gen/MetricKernels.lean): each case is also run
 # through the translated kernel (driver `gmetric`) and compared with numba (`translated-kernel:<kernel>`, same rule as
 # the model) and with the model bit for bit (`translated-kernel-vs-model:<kernel>`)
-TRANSLATED2 = ("standardised_euclidean", "weighted_minkowski", "haversine", "tsss")
+TRANSLATED2 = ("standardised_euclidean", "weighted_minkowski", "haversine", "tsss", "mahalanobis")
 
 
 def run_model2(res, rng, n_cases):
